@@ -89,7 +89,9 @@ def run(ctx: Ctx):
     # D4 enter call sites, D5 transition data flow and adoption
     rules.rule_enter_sites(ctx, KINDS, "D4")
     ctx.attempt(rules.rule_enter_installs, ctx, "D4")
-    ctx.attempt(rules.rule_state_lineage, ctx, "D2", rules.step_path_funcs(repo))
+    # a dropped state matters here only if the call that produced it can take or give back a plug, a queue slot or a stall
+    ops = {k for k, (kind, _) in states.RES.items() if kind in KINDS} | {"modify_station", "modify_base"}
+    ctx.attempt(rules.rule_state_lineage, ctx, "D2", rules.step_path_funcs(repo), "DU.state-lineage", lambda fn, c: rules.may_reach(repo, fn, c, ops))
     rules.rule_transition(ctx, "D5")
     du = repo.func(VS, "VehicleStateABC.default_update")
     ai = repo.func(SSO, "apply_instructions")
